@@ -192,6 +192,36 @@ class DictScript(Script):
     return st
 
 
+def autoreset_nonfinite(U, rep):
+  """R15.2 with a NON-FINITE payload: the restore is a SELECTION.  The member's episode ends (done' = 1, a constant) on a
+  step whose observation / pipeline state hold +inf (a range sensor's "no hit", a diverged state that terminated the
+  episode): the returned observation and state must be exactly the reset snapshot.  An arithmetic blend done * first +
+  (1 - done) * stepped is the same polynomial for finite values but gives 0 * inf = NaN here (IEEE, modelled for literal
+  infinities in exact mode)."""
+  f = U.func(TW + '.AutoResetWrapper.step')
+  I = new_interp(U.repo)
+  S = Script(I)
+  w = mk(I, 'AutoResetWrapper', S.env())
+  s0 = I.apply(I.attr(w, 'reset'), [symarr('key', (2,))], {})
+  cur = clone(s0)
+  cur.f['obs'] = symarr('o', (2,))
+  cur.f['pipeline_state'] = Struct('PS', {'q': symarr('p', (3,))})
+  cur.f['done'] = Rat.lift(0)
+  inf = Rat.lift(float('inf'))
+
+  def ending_step(state, action):
+    st = S.step(state, action)
+    return Struct(st.cls, dict(st.f, done=Rat.lift(1), obs=np.array([inf, st.f['obs'][1]], dtype=object),
+                               pipeline_state=Struct('PS', {'q': np.array([st.f['pipeline_state'].f['q'][0], inf, inf], dtype=object)})), home=st.home)
+  w.f['env'].f['step'] = ('prim', 'step', ending_step)
+  out = I.apply(I.attr(w, 'step'), [clone(cur), symarr('act', (2,))], {})
+  ok = same(out.f['obs'], s0.f['obs']) and same(out.f['pipeline_state'].f['q'], s0.f['pipeline_state'].f['q'])
+  rep.check(ok, 'R15.2', 'AutoResetWrapper.step restores the snapshot by selection (episode ends on a step with +inf in obs / state)',
+            lambda: 'after an episode that ended on a non-finite observation / state the next observation is not the one from reset: '
+            + diff_report(out.f['obs'], s0.f['obs']), where=f.where(),
+            construct="done' = 1 (constant), stepped obs[0] = +inf: where(done', first, stepped) == first; a blend gives 0 * inf = NaN")
+
+
 def autoreset_dict_obs(U, rep):
   """R15.2 with a dict observation: after an episode end EVERY observation leaf is the one from reset."""
   f = U.func(TW + '.AutoResetWrapper.step')
@@ -419,6 +449,7 @@ def run(U, rep, tier):
   episode_wrapper(U, rep, tier)
   autoreset_wrapper(U, rep, tier)
   autoreset_dict_obs(U, rep)
+  autoreset_nonfinite(U, rep)
   eval_wrapper(U, rep, tier)
   composite(U, rep, tier)
   create_order(U, rep)
